@@ -666,6 +666,44 @@ pub fn run(report: &mut Report, replay: Option<&str>) {
         for (k, v) in stats.counts { report.count(&format!("data-boundaries:{}", k), v); }
         report.exhaustive.insert("numeric boundary values (i64/u64/f64 extremes, 2^53±1) × json/json5/yaml/yml/toml × mode".to_owned(), true);
     }
+    // ---- `.luaurc` trees: a `.luaurc` under src/ and a different one in a module folder; every Lua file of the tree
+    //      is an entry of ONE darklua run (use_luau_configuration at its default), in three processing orders
+    {
+        let mut model = Model::spawn();
+        let mut stats = Stats::default();
+        let mut rng = Rng::new(seed.wrapping_mul(4099).wrapping_add(17));
+        let trees: usize = if thorough { 40 } else { 8 };
+        for _ in 0..trees {
+            for rendered in g::luaurc_batches(&mut rng) {
+                let combos = [Combo { generator: *rng.pick(&GENERATORS), rules: false }];
+                report.hist("family", "luaurc-batches");
+                let failures = check_rendered(&mut model, &mut stats, &rendered, &combos);
+                report.case(Some((&rendered.files, rendered.batch.as_ref().map(|b| b.entries.clone()))));
+                if !failures.is_empty() {
+                    report_failures(&mut model, report, None, &rendered, &combos, failures);
+                }
+            }
+        }
+        for (k, v) in stats.counts { report.count(&format!("luaurc-batches:{}", k), v); }
+    }
+    // ---- enumerated: long strings (long-bracket form of the string writers) in bundled data files, every generator
+    {
+        let mut model = Model::spawn();
+        let mut stats = Stats::default();
+        for case in g::long_strings() {
+            let rendered = g::render(&case);
+            let combos = [Combo { generator: "readable", rules: false }, Combo { generator: "dense", rules: false }, Combo { generator: "retain_lines", rules: false }];
+            case_stats(report, &case, &rendered);
+            report.hist("family", "long-strings");
+            let failures = check_rendered(&mut model, &mut stats, &rendered, &combos);
+            report.case(Some(&rendered.files));
+            if !failures.is_empty() {
+                report_failures(&mut model, report, Some(&case), &rendered, &combos, failures);
+            }
+        }
+        for (k, v) in stats.counts { report.count(&format!("long-strings:{}", k), v); }
+        report.exhaustive.insert("long strings (CRLF, lone CR, leading LF, closing brackets, tabs; ≥ 60 bytes or ≥ 20 bytes with ≥ 6 LF) × txt/json/json5/yaml/yml/toml × three generators".to_owned(), true);
+    }
     // ---- random graphs
     let per_thread: usize = if thorough { 260 } else { 40 };
     report.parallel(threads, |tid, r| {
